@@ -26,6 +26,9 @@ func basicTy(b string) Ty { return Ty{0, b} }
 func namedTy(n int) Ty    { return Ty{n, namedPool[n]} }
 
 func (t Ty) Go() string {
+	if t.isComp() {
+		return t.desc().goString()
+	}
 	if t.N == 0 {
 		return t.B
 	}
@@ -33,13 +36,164 @@ func (t Ty) Go() string {
 }
 
 func (t Ty) Term() string {
+	if t.isComp() {
+		return t.desc().term()
+	}
 	if t.N == 0 {
 		return "tb " + t.B
 	}
 	return fmt.Sprintf("tn %d %s", t.N, t.B)
 }
 
+// Composite types: a Ty whose B is "#<index>" names an entry of compTab (so
+// that Ty stays a comparable value). The pool is fixed.
+type compDesc struct {
+	Kind   string // ptr slice array map struct func any def
+	Elem   Ty     // ptr, slice, array, map value, def underlying
+	Key    Ty     // map
+	Len    int    // array
+	Fields []Ty   // struct
+	Ps, Rs []Ty   // func
+	Def    int    // def: the number n of `type Tn ...`
+}
+
+var compTab []compDesc
+
+func compTy(d compDesc) Ty {
+	compTab = append(compTab, d)
+	return Ty{0, fmt.Sprintf("#%d", len(compTab)-1)}
+}
+
+func (t Ty) isComp() bool { return strings.HasPrefix(t.B, "#") }
+func (t Ty) desc() compDesc {
+	var i int
+	fmt.Sscanf(t.B, "#%d", &i)
+	return compTab[i]
+}
+
+// under returns the underlying type (itself for type literals).
+func (t Ty) under() Ty {
+	if t.isComp() {
+		if d := t.desc(); d.Kind == "def" {
+			return d.Elem
+		}
+		return t
+	}
+	return Ty{0, t.B}
+}
+
+func (t Ty) kind() string {
+	u := t.under()
+	if u.isComp() {
+		return u.desc().Kind
+	}
+	return "basic"
+}
+
+var (
+	tInt      = basicTy("int")
+	tString   = basicTy("string")
+	tPtrInt   = compTy(compDesc{Kind: "ptr", Elem: tInt})
+	tSliceInt = compTy(compDesc{Kind: "slice", Elem: tInt})
+	tArr3Int  = compTy(compDesc{Kind: "array", Len: 3, Elem: tInt})
+	tMapSI    = compTy(compDesc{Kind: "map", Key: tString, Elem: tInt})
+	tStructIS = compTy(compDesc{Kind: "struct", Fields: []Ty{tInt, tString}})
+	tDefSlice = compTy(compDesc{Kind: "def", Def: 7, Elem: tSliceInt})
+	tDefStruc = compTy(compDesc{Kind: "def", Def: 8, Elem: tStructIS})
+	tAny      = compTy(compDesc{Kind: "any"})
+	tFuncIS   = compTy(compDesc{Kind: "func", Ps: []Ty{tInt}, Rs: []Ty{tString}})
+	tPtrDefSt = compTy(compDesc{Kind: "ptr", Elem: tDefStruc})
+	tSliceStr = compTy(compDesc{Kind: "slice", Elem: tString})
+	tMapIS    = compTy(compDesc{Kind: "map", Key: tInt, Elem: tString})
+	tArr2Str  = compTy(compDesc{Kind: "array", Len: 2, Elem: tString})
+	tDefSlic2 = compTy(compDesc{Kind: "def", Def: 9, Elem: tSliceInt})
+	tBytes    = compTy(compDesc{Kind: "slice", Elem: basicTy("uint8")})
+	tStructSl = compTy(compDesc{Kind: "struct", Fields: []Ty{tSliceInt}})
+	tArr2Sl   = compTy(compDesc{Kind: "array", Len: 2, Elem: tSliceInt})
+	tPtrArr3  = compTy(compDesc{Kind: "ptr", Elem: tArr3Int})
+	tDefAny   = compTy(compDesc{Kind: "def", Def: 10, Elem: tAny})
+	tMapArr   = compTy(compDesc{Kind: "map", Key: tString, Elem: tArr3Int})
+	tMapStruc = compTy(compDesc{Kind: "map", Key: tString, Elem: tDefStruc})
+	tSliceSt  = compTy(compDesc{Kind: "slice", Elem: tDefStruc})
+	tPtrStruc = compTy(compDesc{Kind: "ptr", Elem: tStructIS})
+	tMapBad   = compTy(compDesc{Kind: "map", Key: tSliceInt, Elem: tInt}) // invalid key type (mutants only)
+)
+
+// the defined composite types, declared in every program
+var defTypes = []Ty{tDefSlice, tDefStruc, tDefSlic2, tDefAny}
+
+func tys(ts []Ty, f func(Ty) string, sep string) string {
+	var parts []string
+	for _, t := range ts {
+		parts = append(parts, f(t))
+	}
+	return strings.Join(parts, sep)
+}
+
+func (d compDesc) literal() string {
+	switch d.Kind {
+	case "ptr":
+		return "*" + d.Elem.Go()
+	case "slice":
+		return "[]" + d.Elem.Go()
+	case "array":
+		return fmt.Sprintf("[%d]%s", d.Len, d.Elem.Go())
+	case "map":
+		return "map[" + d.Key.Go() + "]" + d.Elem.Go()
+	case "struct":
+		var fs []string
+		for i, f := range d.Fields {
+			fs = append(fs, fmt.Sprintf("F%d %s", i, f.Go()))
+		}
+		return "struct{ " + strings.Join(fs, "; ") + " }"
+	case "func":
+		res := ""
+		if len(d.Rs) == 1 {
+			res = " " + d.Rs[0].Go()
+		} else if len(d.Rs) > 1 {
+			res = " (" + tys(d.Rs, Ty.Go, ", ") + ")"
+		}
+		return "func(" + tys(d.Ps, Ty.Go, ", ") + ")" + res
+	case "any":
+		return "interface{}"
+	}
+	panic("literal " + d.Kind)
+}
+
+func (d compDesc) goString() string {
+	if d.Kind == "def" {
+		return fmt.Sprintf("T%d", d.Def)
+	}
+	return d.literal()
+}
+
+func (d compDesc) term() string {
+	switch d.Kind {
+	case "ptr":
+		return "tp " + d.Elem.Term()
+	case "slice":
+		return "ts " + d.Elem.Term()
+	case "array":
+		return fmt.Sprintf("ta %d %s", d.Len, d.Elem.Term())
+	case "map":
+		return "tm " + d.Key.Term() + " " + d.Elem.Term()
+	case "struct":
+		return fmt.Sprintf("tst %d %s", len(d.Fields), tys(d.Fields, Ty.Term, " "))
+	case "func":
+		return strings.TrimSpace(fmt.Sprintf("tf %d %s", len(d.Ps), tys(d.Ps, Ty.Term, " "))) + " " +
+			strings.TrimSpace(fmt.Sprintf("%d %s", len(d.Rs), tys(d.Rs, Ty.Term, " ")))
+	case "any":
+		return "tany"
+	case "def":
+		return fmt.Sprintf("td %d %s", d.Def, d.Elem.Term())
+	}
+	panic("term " + d.Kind)
+}
+
 func classOf(b string) string {
+	if strings.HasPrefix(b, "#") {
+		return "comp"
+	}
 	switch b {
 	case "bool":
 		return "bool"
@@ -137,7 +291,52 @@ type (
 		P, F int
 		Args []Expr
 	}
+	// Elt is an element of a composite literal: Kind pos | idx (Z: e) | key (K: e)
+	Elt struct {
+		Kind string
+		Z    int
+		K, E Expr
+	}
+	CompLit struct {
+		ebase
+		T   Ty
+		Els []*Elt
+	}
+	Index struct {
+		ebase
+		A, I Expr
+	}
+	SliceE struct { // Lo, Hi may be nil
+		ebase
+		A, Lo, Hi Expr
+	}
+	Addr struct {
+		ebase
+		E Expr
+	}
+	Deref struct {
+		ebase
+		E Expr
+	}
+	Sel struct {
+		ebase
+		E Expr
+		I int
+	}
+	Builtin struct { // len cap append make new copy delete
+		ebase
+		Name string
+		T    *Ty
+		Args []Expr
+	}
+	Assert struct {
+		ebase
+		E Expr
+		T Ty
+	}
 )
+
+func tinfo(t Ty) ebase { return ebase{info{Typed: true, T: t}} }
 
 type Stmt interface{}
 
@@ -192,6 +391,13 @@ type (
 	Break    struct{}
 	Continue struct{}
 	Block    struct{ B []Stmt }
+	Set      struct{ L, E Expr }
+	Range    struct {
+		K, V int
+		Def  bool
+		E    Expr
+		Body []Stmt
+	}
 )
 
 type GDecl struct {
@@ -293,11 +499,59 @@ func goExpr(e Expr) string {
 	case *Bin:
 		return "(" + goExpr(e.A) + " " + binopGo[e.Op] + " " + goExpr(e.B) + ")"
 	case *Conv:
+		if e.T.isComp() && e.T.desc().Kind != "def" {
+			return "(" + e.T.Go() + ")(" + goExpr(e.E) + ")"
+		}
 		return e.T.Go() + "(" + goExpr(e.E) + ")"
 	case *Call:
 		return name(e.F) + "(" + goExprs(e.Args) + ")"
 	case *Pkg:
 		return pkgNames[e.P] + "." + pkgFuncs[e.P][e.F] + "(" + goExprs(e.Args) + ")"
+	case *CompLit:
+		var parts []string
+		for _, el := range e.Els {
+			switch el.Kind {
+			case "pos":
+				parts = append(parts, goExpr(el.E))
+			case "idx":
+				if e.T.kind() == "struct" {
+					parts = append(parts, fmt.Sprintf("F%d: %s", el.Z, goExpr(el.E)))
+				} else {
+					parts = append(parts, fmt.Sprintf("%d: %s", el.Z, goExpr(el.E)))
+				}
+			default:
+				parts = append(parts, goExpr(el.K)+": "+goExpr(el.E))
+			}
+		}
+		return e.T.Go() + "{" + strings.Join(parts, ", ") + "}"
+	case *Index:
+		return goExpr(e.A) + "[" + goExpr(e.I) + "]"
+	case *SliceE:
+		lo, hi := "", ""
+		if e.Lo != nil {
+			lo = goExpr(e.Lo)
+		}
+		if e.Hi != nil {
+			hi = goExpr(e.Hi)
+		}
+		return goExpr(e.A) + "[" + lo + ":" + hi + "]"
+	case *Addr:
+		return "(&" + goExpr(e.E) + ")"
+	case *Deref:
+		return "(*" + goExpr(e.E) + ")"
+	case *Sel:
+		return fmt.Sprintf("%s.F%d", goExpr(e.E), e.I)
+	case *Builtin:
+		var parts []string
+		if e.T != nil {
+			parts = append(parts, e.T.Go())
+		}
+		for _, a := range e.Args {
+			parts = append(parts, goExpr(a))
+		}
+		return e.Name + "(" + strings.Join(parts, ", ") + ")"
+	case *Assert:
+		return goExpr(e.E) + ".(" + e.T.Go() + ")"
 	}
 	panic(fmt.Sprintf("goExpr %T", e))
 }
@@ -406,6 +660,23 @@ func goStmt(b *strings.Builder, s Stmt, ind string) {
 		w("{")
 		goBlock(b, s.B, ind+"\t")
 		w("}")
+	case *Set:
+		w("%s = %s", goExpr(s.L), goExpr(s.E))
+	case *Range:
+		op := "="
+		if s.Def {
+			op = ":="
+		}
+		switch {
+		case s.K == 0 && s.V == 0:
+			w("for range %s {", goExpr(s.E))
+		case s.V == 0:
+			w("for %s %s range %s {", name(s.K), op, goExpr(s.E))
+		default:
+			w("for %s, %s %s range %s {", name(s.K), name(s.V), op, goExpr(s.E))
+		}
+		goBlock(b, s.Body, ind+"\t")
+		w("}")
 	default:
 		panic(fmt.Sprintf("goStmt %T", s))
 	}
@@ -429,6 +700,10 @@ func (p *Prog) Go() string {
 	sort.Ints(named)
 	for _, n := range named {
 		fmt.Fprintf(&b, "type T%d %s\n", n, namedPool[n])
+	}
+	for _, t := range defTypes {
+		d := t.desc()
+		fmt.Fprintf(&b, "type T%d %s\n", d.Def, d.Elem.Go())
 	}
 	for _, g := range p.Globals {
 		kw := "var"
@@ -468,14 +743,33 @@ func (p *Prog) Go() string {
 // namedTypes returns the defined types mentioned in the program.
 func (p *Prog) namedTypes() map[int]bool {
 	m := map[int]bool{}
-	ty := func(t Ty) {
+	var ty func(t Ty)
+	ty = func(t Ty) {
+		if t.isComp() {
+			d := t.desc()
+			for _, x := range append(append(append([]Ty{d.Elem, d.Key}, d.Fields...), d.Ps...), d.Rs...) {
+				if x.B != "" {
+					ty(x)
+				}
+			}
+			return
+		}
 		if t.N != 0 {
 			m[t.N] = true
 		}
 	}
 	p.walk(func(e *Expr) {
-		if c, ok := (*e).(*Conv); ok {
+		switch c := (*e).(type) {
+		case *Conv:
 			ty(c.T)
+		case *CompLit:
+			ty(c.T)
+		case *Assert:
+			ty(c.T)
+		case *Builtin:
+			if c.T != nil {
+				ty(*c.T)
+			}
 		}
 	}, func(s Stmt) {
 		switch s := s.(type) {
@@ -525,6 +819,36 @@ func walkExpr(e *Expr, fe func(e *Expr)) {
 		for i := range x.Args {
 			walkExpr(&x.Args[i], fe)
 		}
+	case *CompLit:
+		for _, el := range x.Els {
+			if el.K != nil {
+				walkExpr(&el.K, fe)
+			}
+			walkExpr(&el.E, fe)
+		}
+	case *Index:
+		walkExpr(&x.A, fe)
+		walkExpr(&x.I, fe)
+	case *SliceE:
+		walkExpr(&x.A, fe)
+		if x.Lo != nil {
+			walkExpr(&x.Lo, fe)
+		}
+		if x.Hi != nil {
+			walkExpr(&x.Hi, fe)
+		}
+	case *Addr:
+		walkExpr(&x.E, fe)
+	case *Deref:
+		walkExpr(&x.E, fe)
+	case *Sel:
+		walkExpr(&x.E, fe)
+	case *Builtin:
+		for i := range x.Args {
+			walkExpr(&x.Args[i], fe)
+		}
+	case *Assert:
+		walkExpr(&x.E, fe)
 	}
 }
 
@@ -574,6 +898,12 @@ func walkBlock(ss *[]Stmt, fe func(e *Expr), fs func(s Stmt), fb func(b *[]Stmt)
 			es(s.Es)
 		case *Block:
 			walkBlock(&s.B, fe, fs, fb)
+		case *Set:
+			walkExpr(&s.L, fe)
+			walkExpr(&s.E, fe)
+		case *Range:
+			walkExpr(&s.E, fe)
+			walkBlock(&s.Body, fe, fs, fb)
 		}
 	}
 }
@@ -640,8 +970,69 @@ func (w *tw) expr(e Expr) {
 	case *Pkg:
 		w.t("K", e.P, e.F)
 		w.exprs(e.Args)
+	case *CompLit:
+		w.t("CL", e.T.Term(), "<")
+		for _, el := range e.Els {
+			switch el.Kind {
+			case "pos":
+				w.t("p")
+			case "idx":
+				w.t("i", el.Z)
+			default:
+				w.t("k")
+				w.expr(el.K)
+			}
+			w.expr(el.E)
+		}
+		w.t(">")
+	case *Index:
+		w.t("IX")
+		w.expr(e.A)
+		w.expr(e.I)
+	case *SliceE:
+		w.t("SL")
+		w.expr(e.A)
+		w.oexpr(e.Lo)
+		w.oexpr(e.Hi)
+	case *Addr:
+		w.t("AD")
+		w.expr(e.E)
+	case *Deref:
+		w.t("DE")
+		w.expr(e.E)
+	case *Sel:
+		w.t("SE", e.I)
+		w.expr(e.E)
+	case *Builtin:
+		w.t("B", e.Name)
+		if e.T != nil {
+			w.t(e.T.Term())
+		}
+		switch e.Name {
+		case "append":
+			w.expr(e.Args[0])
+			w.exprs(e.Args[1:])
+		case "make":
+			w.exprs(e.Args)
+		case "new":
+		default:
+			for _, a := range e.Args {
+				w.expr(a)
+			}
+		}
+	case *Assert:
+		w.t("AS", e.T.Term())
+		w.expr(e.E)
 	default:
 		panic(fmt.Sprintf("term %T", e))
+	}
+}
+
+func (w *tw) oexpr(e Expr) {
+	if e == nil {
+		w.t("omit")
+	} else {
+		w.expr(e)
 	}
 }
 
@@ -736,6 +1127,18 @@ func (w *tw) stmt(s Stmt) {
 	case *Block:
 		w.t("block")
 		w.block(s.B)
+	case *Set:
+		w.t("set")
+		w.expr(s.L)
+		w.expr(s.E)
+	case *Range:
+		d := 0
+		if s.Def {
+			d = 1
+		}
+		w.t("range", s.K, s.V, d)
+		w.expr(s.E)
+		w.block(s.Body)
 	default:
 		panic(fmt.Sprintf("term %T", s))
 	}
